@@ -119,6 +119,7 @@ for pid, cls in [('C01','C01'),('C02','C02'),('C03','C03'),('C04','C04'),('C08',
     if pid == 'C03':
         body += lifted('C03_hrevolve_refuted','Refuted','C03_hrevolve_refuted','REFUTED for HRevolve (known finding D8-C03): HRevolve(11, 1, 2, uf=1, ub=1, wd=0, rd=1) holds three DISK checkpoints with two disk units (first monitor error E_budget DISK)')
     if pid == 'C02':
+        body += lifted('C02_revolve_terminates','RevolveRun','revolve_terminates','completeness (Revolve): the op list is finite; from some request count on the schedule is exhausted, with no error on the way and exactly TC N s forward steps executed')
         body += lifted('C02_mixed_terminates','MixBridge','mixed_terminates','completeness (Mixed, both planner paths): within N (N + 3) + N + 2 requests the schedule is exhausted (EndReverse has been emitted, by C09_flags), and by then exactly C N S forward steps have been executed')
     for new, mod, name, cm in PARTIAL_SAFETY:
         body += lifted(new % pid, mod, name, cm)
@@ -195,12 +196,13 @@ Proof. exact twolevel_run. Qed.
 Print Assumptions C09_twolevel_passes.
 
 """
-mk('C09', ['MSTerm','OnlineFlags','Flags'], [
+mk('C09', ['MSTerm','OnlineFlags','Flags','RevConv','RevBridge4','RevolveRun'], [
    lifted('C09_flags','Flags','C09_flags','FLAGS, all thirteen classes, every parameter tuple the constructor accepts, every history of next() / finalize(k) requests (ops), any executor parameters: before the first request is_exhausted = is_running = False; after every next() is_running = True; is_exhausted after a request = (the final action of the class has been yielded so far) -- final_action: EndForward for None, EndReverse for the offline classes and SingleDisk(move), none for SingleMemory, SingleDisk(copy), TwoLevel; no action is yielded once the final action has been seen (only StopIteration / an exception), and finalize never changes the flag. flags_hist is the trace rule, defined in Proofs/OnlineFlags.v'),
    C09_runs,
    lifted('C09_multistage_flags_on_runs','MultistageRun','multistage_flags','the same rule read on the raise-free Multistage runs of the run theorem (every line: is_running, and is_exhausted = (the action is EndReverse), StopIteration only with is_exhausted)'),
    lifted('C09_mixed_flags_on_runs','MixBridge','mixed_flags','... and on the Mixed runs'),
    lifted('C09_multistage_terminates','AllocTotal','multistage_terminates','the offline Multistage schedule concludes: EndReverse within 6 * TC N S + 1 requests'),
+   lifted('C09_revolve_terminates','RevolveRun','revolve_terminates','the offline Revolve schedule concludes'),
    lifted('C09_mixed_terminates','MixBridge','mixed_terminates','the offline Mixed schedule concludes: exhausted within N (N + 3) + N + 2 requests'),
    lifted('C09_multistage_terminates_partial','MSTerm','mu_decreases','PARTIAL: termination measure of the Multistage machine decreases at every yielded action (so the final action is reached); "each further pass is an exact repeat of the first" is covered by executability for every k above, the literal equality of passes by correspondence + oracle')])
 mk('C10', ['BasicProofs'], [lifted('C10_online','BasicProofs','C10_online','online, not finalised: finalize(k) succeeds iff 1 <= k <= n, and then fixes max_n = n = k'),
